@@ -10,6 +10,11 @@ export TZ="${VERIF_TZ:-CET-1CEST,M3.5.0,M10.5.0/3}"
 export VERIF_REPO="${VERIF_REPO:-/repo}"
 export PYTHONPATH="$VERIF_REPO:$(pwd)"
 mod="harness.$(echo "$prop" | tr 'A-Z' 'a-z')"
+# Everything a run creates with tempfile (storage files, per-worker directories, fresh interpreters) goes into one
+# directory of this run and is removed when the run ends, whatever way the harness processes exit.
+run_tmp="$(mktemp -d "${TMPDIR:-/tmp}/awverif-run-XXXXXX")" || exit 2
+export TMPDIR="$run_tmp"
+trap 'rm -rf "$run_tmp"' EXIT
 # A verdict is "exit 0" or "exit 1 with a VIOLATION line".  A harness process that dies without a verdict
 # (an infrastructure hiccup: a killed worker, a full disk, a locked scratch file) is not a verdict: keep its
 # output and run the check once more; the second run's status is final.
